@@ -4,6 +4,7 @@
     SHA-512), and the byte-exact signing pipeline is Model/Ed25519.v, executed against the code. *)
 From Coq Require Import Field Bool.
 From PatVerif Require Import Model.Algebra Proofs.AlgebraP.
+From PatVerif Require Import Model.Fe Proofs.FeP Model.EdPoint Proofs.EdPointP.
 
 Section C15.
   Variable F : Type.
@@ -58,3 +59,11 @@ Theorem unblind_blind_executed : forall q P r, prime (Z.of_N q) -> (r mod q <> 0
   mulm q (invm q r) (mulm q r P) = (P mod q)%N.
 Proof. exact exec_unblind_blind. Qed.
 Print Assumptions unblind_blind_executed.
+
+(** the blinded public key computed inside the model — decode the key, [factor]A by double-and-add over the field
+    arithmetic of Model/Fe.v, encode — never leaves the limb bounds under which that arithmetic is proved: for every
+    accepted 32-byte key and every factor *)
+Theorem blinded_key_in_the_model_never_wraps : forall (pk : list Byte.byte) A (f : N), length pk = 32%nat -> pt_set_bytes pk = Some A ->
+  pt_ok (pt_mul f A).
+Proof. intros pk A f Hl HA. apply pt_mul_ok. exact (proj1 (pt_set_bytes_ok pk A Hl HA)). Qed.
+Print Assumptions blinded_key_in_the_model_never_wraps.
